@@ -1,18 +1,31 @@
-use std::io::Cursor;
+use fatfs_verif::ops::{Op, Run};
+use fatfs_verif::vol::VolCfg;
 fn main() {
-    let mut img = fatfs::StdIoWrapper::new(Cursor::new(vec![0u8; 1 << 20]));
-    fatfs::format_volume(&mut img, fatfs::FormatVolumeOptions::new()).unwrap();
-    let fs = fatfs::FileSystem::new(img, fatfs::FsOptions::new()).unwrap();
-    let root = fs.root_dir();
-    let s128 = "s".repeat(128);
-    root.create_file(&s128).unwrap();
-    let long_s = "\u{17f}".repeat(128); // 256 bytes
-    println!("create_file(256-byte name folding onto an existing one): {:?}", root.create_file(&long_s).map(|_| ()));
-    println!("create_dir: {:?}", root.create_dir(&long_s).map(|_| ()));
-    root.create_file("other").unwrap();
-    println!("rename onto it: {:?}", root.rename("other", &root, &long_s));
-    let s300 = "S".repeat(128) + ":";
-    println!("open with invalid char: {:?}", root.create_file(&s300).map(|_| ()));
-    let n = root.iter().count();
-    println!("entries {}", n);
+    let mut v = VolCfg::from_preset(12);
+    v.free_lo = Some(0);
+    v.free_hi = 40;
+    let cs = v.cluster_size();
+    let hp = fatfs_verif::props::hist_prop("C02").unwrap();
+    let of = |p: &str, k: u8| Op::OpenFile { via: 0, path: p.into(), keep: k };
+    let ops = vec![
+        Op::CreateFile { via: 0, path: "emptied.bin".into(), keep: 1 },
+        Op::Write { h: 0, len: cs, seed: 1 },
+        Op::Write { h: 0, len: 5, seed: 3 },
+        Op::CloseFile { h: 0 },
+        of("emptied.bin", 1),
+        Op::Truncate { h: 0 },
+        Op::CloseFile { h: 0 },
+        of("emptied.bin", 1),
+        Op::Write { h: 0, len: 20, seed: 4 },
+        Op::CloseFile { h: 0 },
+    ];
+    let mut run = Run::new(&hp.run_cfg, &v).unwrap();
+    println!("maxc {}", run.geom.max_cluster());
+    for (i, op) in ops.iter().enumerate() {
+        let r = run.exec(i, op);
+        println!("{:?} -> {:?}", op, r.map_err(|e| e.msg));
+        let dec = run.dev.with_store(|s| fatfs_verif::refdec::decode(s, fatfs_verif::refdec::DecodeOpts::default())).unwrap();
+        for e in &dec.root.entries { println!("   {:?} first {} size {} clusters {:?}", String::from_utf16_lossy(&e.visible_units()), e.first_cluster, e.size, e.clusters); }
+    }
+    println!("finish {:?}", run.finish().map_err(|e| e.msg));
 }
